@@ -11,8 +11,9 @@
    HashSet / HashMap CAN REACH THE RESULT the function takes the order as an explicit argument:
      [ho_file]  : iteration order of the per-file import set  (find_type's `.find`, visitors.rs:157)
      [ho_crate] : iteration order of the per-crate import set (resolve_renamed's first matching import,
-                  reconcile.rs:178; the loop of used_imports, mod.rs:461, through which a glob import is
-                  effective only if an entry for its crate was made EARLIER, mod.rs:472)
+                  reconcile.rs:178; the loop of used_imports, mod.rs:461 - whose result no longer depends on
+                  it since the wildcard branch creates its entry, mod.rs:473; only the fallback's choice is
+                  left, and that goes through [hc])
      [hc]       : iteration order of CrateTypes = HashMap<CrateName, HashSet<TypeName>>
                   (the fallback's `.next()`, mod.rs:444)
    An oracle is any function list -> list; the real program realises some permutation. *)
@@ -94,13 +95,18 @@ Fixpoint scoped_add (m : scoped) (k name : str) : scoped :=
     else if str_ltb k k' then (k, [name]) :: m
     else (k', v) :: scoped_add r k name
   end.
-(* used.entry(k).and_modify(|names| names.extend(all))   -- NO or_insert (mod.rs:472) *)
-Fixpoint scoped_modify_extend (m : scoped) (k : str) (all : list str) : scoped :=
+(* used.entry(k).or_insert_with(BTreeSet::new).extend(all)   (mod.rs:473, since the /repo fix of findings
+   C14-glob / C14-glob-order: the entry is created when no earlier import of crate k made it, so a wildcard
+   import is effective on its own and wherever it comes in the iteration).  An entry is created even when
+   [all] is empty (a crate whose type table is empty: only consts). *)
+Definition sset_extend (v all : list str) : list str := fold_left (fun acc n => sset_insert n acc) all v.
+Fixpoint scoped_extend (m : scoped) (k : str) (all : list str) : scoped :=
   match m with
-  | [] => []
+  | [] => [(k, sset_extend [] all)]
   | (k', v) :: r =>
-    if str_eqb k' k then (k', fold_left (fun acc n => sset_insert n acc) all v) :: r
-    else (k', v) :: scoped_modify_extend r k all
+    if str_eqb k' k then (k', sset_extend v all) :: r
+    else if str_ltb k k' then (k, sset_extend [] all) :: m
+    else (k', v) :: scoped_extend r k all
   end.
 (* the import LIST: (module, name) pairs in the order write_imports prints them *)
 Definition scoped_pairs (m : scoped) : list (str * str) :=
@@ -111,7 +117,7 @@ Definition crate_types := list (str * list str).
 Fixpoint crate_types_get (m : crate_types) (k : str) : option (list str) :=
   match m with [] => None | (a, v) :: r => if str_eqb a k then Some v else crate_types_get r k end.
 
-(* parse.rs:68 all_types: every crate with the type_names it accumulated *)
+(* parse.rs:68 all_types: every crate with the type_names it accumulated (structs, enums, aliases; no consts) *)
 Definition all_types (cs : crates) : crate_types := map (fun c => (fst c, p_type_names (snd c))) cs.
 
 (* mod.rs:439 the `fallback` closure: the FIRST crate, in the iteration order [hc_types] of the
@@ -129,7 +135,7 @@ Definition used_imports (hc_types : crate_types) (own : str) (imports_iter : lis
     if str_eqb (base_crate imp) own then m          (* .filter(|imp| imp.base_crate != data.crate_name) *)
     else match crate_types_get hc_types (base_crate imp) with
          | Some type_names =>
-           if str_eqb (type_name imp) GLOB then scoped_modify_extend m (base_crate imp) type_names
+           if str_eqb (type_name imp) GLOB then scoped_extend m (base_crate imp) type_names
            else if mem_str (type_name imp) type_names then scoped_add m (base_crate imp) (type_name imp)
            else import_fallback hc_types own (type_name imp) m
          | None => import_fallback hc_types own (type_name imp) m
